@@ -221,6 +221,37 @@ func CensusDecoder(fn *ssa.Function) DecoderCensus {
 							c.Offsets = append(c.Offsets, OffsetRead{Lo: lo, Hi: hi, FirstConst: -1})
 						}
 					}
+				case strings.HasSuffix(id, "littleEndian).Uint32"):
+					// the same read written with the standard library: uint64(LittleEndian.Uint32(buf[a:a+4])),
+					// an offset when the widened value is compared with the input size
+					sl, ok := call.Call.Args[len(call.Call.Args)-1].(*ssa.Slice)
+					if !ok || call.Referrers() == nil {
+						break
+					}
+					lo, _ := ConstInt(sl.Low)
+					hi, okh := ConstInt(sl.High)
+					if sl.Low == nil {
+						lo = 0
+					}
+					if !okh || hi-lo != 4 {
+						break
+					}
+					for _, rf := range *call.Referrers() {
+						cv, ok := rf.(*ssa.Convert)
+						if !ok || cv.Referrers() == nil {
+							continue
+						}
+						vsSize := false
+						for _, r2 := range *cv.Referrers() {
+							if bo, ok := r2.(*ssa.BinOp); ok && ((bo.X == ssa.Value(cv) && isSize(bo.Y)) || (bo.Y == ssa.Value(cv) && isSize(bo.X))) {
+								vsSize = true
+							}
+						}
+						if vsSize {
+							offsetVals[cv] = len(c.Offsets)
+							c.Offsets = append(c.Offsets, OffsetRead{Lo: lo, Hi: hi, FirstConst: -1})
+						}
+					}
 				case strings.HasSuffix(id, "fastssz.DecodeDynamicLength"):
 					if k, ok := ConstInt(call.Call.Args[1]); ok {
 						c.DynLen = append(c.DynLen, k)
@@ -344,6 +375,12 @@ func CensusEncoder(fn *ssa.Function) EncoderCensus {
 			case *ssa.Call:
 				if strings.HasSuffix(CalleeID(x), "fastssz.WriteOffset") && c.ContainerOffset < 0 {
 					if k, ok := ConstInt(x.Call.Args[1]); ok && !InLoop(b) {
+						c.ContainerOffset = k
+					}
+				}
+				// the same write with the standard library: LittleEndian.AppendUint32(dst, uint32(offset))
+				if strings.HasSuffix(CalleeID(x), "littleEndian).AppendUint32") && c.ContainerOffset < 0 {
+					if k, ok := ConstInt(Unwrap(x.Call.Args[len(x.Call.Args)-1])); ok && !InLoop(b) {
 						c.ContainerOffset = k
 					}
 				}
